@@ -124,8 +124,8 @@ def check_templates(st):
 
 # ---- socket path: header lines, endings, segmentation at every offset
 PRELINES = [[], ['hello'], ['xSSH-2.0-a'], [' SSH-2.0-a'], ['SSH-'], ['Welcome to host', 'second line'], ['', 'after blank'], ['SSH-2', 'SSH-two.0-x'],
-            ['\x1b[1mSSH-2.0-gateway\x1b[0m ahead'], ['\x1b[32mWelcome\x1b[0m', 'plain line']]
-SOCK_BANNERS = ['SSH-2.0-OpenSSH_9.6', 'SSH-2.0-a.1 c d', 'SSH-1.99-dropbear_2020.81', 'SSH-2.0-a\x80b', 'SSH-1.99-a\x80b c', 'SSH-2.0-x  two  spaces ', 'SSH-2.0-Sun_SSH-1.5 was SSH-1.0']
+            ['\x1b[1mSSH-2.0-gateway\x1b[0m ahead'], ['notice ' + 'w' * 280 + ' SSH-2.0-tail of a long line'], ['\x1b[32mWelcome\x1b[0m', 'plain line']]
+SOCK_BANNERS = ['SSH-2.0-OpenSSH_9.6', 'SSH-2.0-longsoft_1.0 ' + 'comment ' * 40 + 'end', 'SSH-2.0-a.1 c d', 'SSH-1.99-dropbear_2020.81', 'SSH-2.0-a\x80b', 'SSH-1.99-a\x80b c', 'SSH-2.0-x  two  spaces ', 'SSH-2.0-Sun_SSH-1.5 was SSH-1.0']
 
 
 SOCK_INJECT = [b'\x80', b'\x00', b'\x7f', b'\x1c', b'\x1d', b'\x1e', b'\x1f', b'\x01', b'\x0b', b'\t', b'\xc2\x85', b'\xc2\xa0', b'\xe2\x80\xa8',
